@@ -27,6 +27,8 @@ def view(index: RepoIndex, func: Func, cross: Tuple[str, ...] = (),
     """(normalised node, its guard walk, names of the helpers inlined); `cross` names
     imported repository functions to inline as well, `keep` names helpers a rule wants to
     see as calls"""
+    cross = tuple(cross) + tuple(n for n in new_imported_helpers(index, func) if n not in cross
+                                 and n not in keep)
     key = (id(index), id(func.node), tuple(cross), tuple(keep))
     hit = _CACHE.get(key)
     if hit is not None:
@@ -40,6 +42,23 @@ def view(index: RepoIndex, func: Func, cross: Tuple[str, ...] = (),
     out = (node, walk_function(node), inlined)
     _CACHE[key] = out
     return out
+
+
+def new_imported_helpers(index: RepoIndex, func: Func) -> Tuple[str, ...]:
+    """names called in `func` that resolve to module-level functions of *another* module of
+    the package which the pinned tree did not have: helpers a maintainer extracted into a
+    shared module; they are read through like module-local helpers"""
+    from .pinned_names import FUNCTIONS
+    out = []
+    for n in ast.walk(func.node):
+        if isinstance(n, ast.Call) and isinstance(n.func, ast.Name) and \
+                n.func.id not in FUNCTIONS and n.func.id not in func.module.functions and \
+                n.func.id not in out:
+            r = index.resolve_name(func.module, n.func.id)
+            if isinstance(r, Func) and r.cls is None and \
+                    r.module.relpath.startswith('gym_gridverse/'):
+                out.append(n.func.id)
+    return tuple(out)
 
 
 def component_node(index: RepoIndex, func: Func) -> Tuple[ast.FunctionDef, list]:
